@@ -374,16 +374,17 @@ def r_reserve_guard(F, V):
                 R.violation(key, body, "reserve_rehash is called from %s: growth must go through reserve/try_reserve, which test the remaining room first" % p, line=line_of(body, bb=i))
                 continue
             ok = False
+            add_l = [l for l in range(1, body.arg_count + 1) if body.locals[l].get("name") == "additional"] or [2]
             for (b, s, S) in controlling_sources(body, i):
-                add_l = [l for l in range(1, body.arg_count + 1) if body.locals[l].get("name") == "additional"] or [2]
-                if S.has_load("growth_left") and ("Gt" in S.binops or "Lt" in S.binops) and (set(add_l) & S.args):
+                rel = _relation(body, b, s, lambda Sx: bool(set(add_l) & Sx.args), lambda Sx: Sx.has_load("growth_left"))
+                if rel == ">":
                     ok = True
-                if S.has_load("growth_left") and ("Ge" in S.binops or "Le" in S.binops):
-                    ok = "nonstrict"
+                elif rel is not None and ok is not True:
+                    ok = rel
             if ok is True:
-                R.inst(key, "reserve_rehash is control-dependent on additional > growth_left", "ok", True, where(body, bb=i))
+                R.inst(key, "reserve_rehash is executed exactly when additional > growth_left", "ok", True, where(body, bb=i))
             else:
-                R.violation(key, body, "reserve_rehash is not guarded by `additional > growth_left`%s: the table is rehashed/grown although the requested room is available (allocation while capacity() - len() > 0)" % (" (non-strict comparison)" if ok == "nonstrict" else ""), line=line_of(body, bb=i))
+                R.violation(key, body, "reserve_rehash is not guarded by `additional > growth_left`%s: the table is rehashed/grown although the requested room is available (allocation while capacity() - len() > 0), or not grown when it must" % ((" (it runs when additional %s growth_left)" % ok) if ok else ""), line=line_of(body, bb=i))
                 R.inst(key, "growth not guarded by the remaining room", "violation", True, where(body, bb=i))
     b = F.bodies.get("raw::RawTable::insert")
     if not b:
@@ -425,6 +426,56 @@ def r_reserve_guard(F, V):
             R.violation(cap + "|shape", b, "capacity() is not computed from items and growth_left (depends on %s)" % sorted(loads))
     R.floor("reserve_rehash call sites", n, {"posctl": 0}.get(F.cfg, 2))
     return R
+
+
+def _relation(body, b, succ, is_lhs, is_rhs):
+    """the switch of block b compares X (is_lhs) with Y (is_rhs); return the relation `X rel Y` that holds on the
+    edge b->succ, normalised to one of > >= < <= == != ; None if the branch is not such a comparison."""
+    t = body.term(b)
+    if t["k"] != "switch" or t["discr"]["k"] not in ("copy", "move"):
+        return None
+    o = t["discr"]
+    neg = False
+    rv = None
+    for _ in range(12):
+        d = body.single_def(o["p"]["l"]) if o["k"] in ("copy", "move") and not o["p"].get("proj") else None
+        if not d:
+            return None
+        if d[0] == "call":
+            cp = callee_path(d[3]) or ""
+            from core import PASS_THROUGH
+            if cp in PASS_THROUGH:
+                o = d[3]["args"][0]
+                continue
+            return None
+        r = d[3]["rv"]
+        if r["k"] == "use":
+            o = r["op"]
+        elif r["k"] == "unop" and r["op"] == "Not":
+            neg = not neg
+            o = r["a"]
+        elif r["k"] == "binop" and r["op"] in ("Gt", "Ge", "Lt", "Le", "Eq", "Ne"):
+            rv = r
+            break
+        else:
+            return None
+    if rv is None:
+        return None
+    Sa, Sb = sources(body, rv["a"]), sources(body, rv["b"])
+    op = rv["op"]
+    if is_lhs(Sa) and is_rhs(Sb):
+        pass
+    elif is_lhs(Sb) and is_rhs(Sa):
+        op = {"Gt": "Lt", "Ge": "Le", "Lt": "Gt", "Le": "Ge", "Eq": "Eq", "Ne": "Ne"}[op]
+    else:
+        return None
+    zero = [bb for v, bb in t["targets"] if v == 0]
+    truth = succ not in zero
+    if neg:
+        truth = not truth
+    if not truth:
+        op = {"Gt": "Le", "Ge": "Lt", "Lt": "Ge", "Le": "Gt", "Eq": "Ne", "Ne": "Eq"}[op]
+    return {"Gt": ">", "Ge": ">=", "Lt": "<", "Le": "<=", "Eq": "==", "Ne": "!="}[op]
 
 
 # --------------------------------------------------------------------- R-REHASH-DECISION
